@@ -60,7 +60,7 @@ struct fiber {
 	volatile int *await;
 	void *tls_waiter;
 	void (*dest) (void *);
-	unsigned blocks; int blocks_armed;
+	unsigned blocks, sleeps; int blocks_armed;
 	int observer;
 	uint32_t vc[MAXF];
 	struct dmap dm;
@@ -144,7 +144,7 @@ void mc_name (const void *p, size_t n, const char *name) {
 /* arena allocator: bump, never reuses, poisons on free               */
 
 struct blk { char *p; size_t n; int live; void *free_pc; int free_by; };
-#define MAXBLK 128
+#define MAXBLK 1024
 static struct blk blks[MAXBLK]; static int nblk;
 static size_t arena_off, arena_hi;
 static int alloc_count, fail_alloc_at;
@@ -409,8 +409,9 @@ void mc_declare_instant (int64_t ns) { for (int i = 0; i < ninst; i++) if (insta
 void mc_fault_mask (int m) { fault_mask = m; }
 /* the counter only runs between mc_blocks_reset() and mc_blocks(), so that it is not a piece of
    unbounded history in the hashed state */
-void mc_blocks_reset (void) { if (cur >= 0) { F[cur].blocks = 0; F[cur].blocks_armed = 1; } }
-unsigned mc_blocks (void) { if (cur < 0) return 0; unsigned b = F[cur].blocks; F[cur].blocks = 0; F[cur].blocks_armed = 0; return b; }
+void mc_blocks_reset (void) { if (cur >= 0) { F[cur].blocks = 0; F[cur].sleeps = 0; F[cur].blocks_armed = 1; } }
+unsigned mc_blocks (void) { if (cur < 0) return 0; unsigned b = F[cur].blocks; F[cur].blocks = 0; F[cur].sleeps = 0; F[cur].blocks_armed = 0; return b; }
+unsigned mc_sleeps_of (int i) { return F[i].sleeps; }
 unsigned mc_blocks_of (int i) { return F[i].blocks; }
 int mc_fiber_done (int i) { return F[i].st == ST_DONE; }
 int mc_fiber_asleep (int i) { return F[i].st == ST_FUTEX || F[i].st == ST_SEMP; }
@@ -694,7 +695,7 @@ long mc_syscall (long nr, ...) {
 		}
 		int64_t dl = MC_NEVER;
 		if (ts) { dl = ts_to_ns (ts); if (cmd == FUTEX_WAIT) dl = now_ns + dl; }
-		F[me].st = ST_FUTEX; F[me].futex_addr = uaddr; F[me].woken = 0; F[me].fault = 0; F[me].dl = dl; F[me].blocks += F[me].blocks_armed;
+		F[me].st = ST_FUTEX; F[me].futex_addr = uaddr; F[me].woken = 0; F[me].fault = 0; F[me].dl = dl; F[me].blocks += F[me].blocks_armed; F[me].sleeps += F[me].blocks_armed;
 		if (opt_verbose) printf ("  T%d futex_wait %s sleeps (deadline %s%lld ns)\n", me, addr_name (uaddr, nb, sizeof nb), dl == MC_NEVER ? "none " : "T0+", dl == MC_NEVER ? 0LL : (long long)(dl - MC_T0));
 		mc_switch_ (&F[me].sp, main_sp);
 		F[me].st = ST_RUN; F[me].dl = MC_NEVER;
@@ -728,7 +729,7 @@ int mc_binsem_p (int *s, int has_dl, int64_t dl) {
 		if (check_live (s, 4, "semaphore P", pc)) return 0;
 		if (*(volatile int *)s != 0) { dm_note ((uintptr_t)s, 4); *s = 0; if (opt_verbose) printf ("  T%d semP %s -> taken\n", me, addr_name (s, nb, sizeof nb)); return 0; }
 		if (has_dl && dl <= now_ns) { if (opt_verbose) printf ("  T%d semP %s -> ETIMEDOUT\n", me, addr_name (s, nb, sizeof nb)); return ETIMEDOUT; }
-		F[me].st = ST_SEMP; F[me].futex_addr = s; F[me].dl = has_dl ? dl : MC_NEVER; F[me].blocks += F[me].blocks_armed;
+		F[me].st = ST_SEMP; F[me].futex_addr = s; F[me].dl = has_dl ? dl : MC_NEVER; F[me].blocks += F[me].blocks_armed; F[me].sleeps += F[me].blocks_armed;
 		if (opt_verbose) printf ("  T%d semP %s sleeps\n", me, addr_name (s, nb, sizeof nb));
 		mc_switch_ (&F[me].sp, main_sp);
 		F[me].st = ST_RUN; F[me].dl = MC_NEVER;
@@ -772,7 +773,7 @@ static void state_hash (int last, uint64_t h[2]) {
 	hbytes (h, __start_mcstate, __stop_mcstate - __start_mcstate);
 	for (int i = 0; i < nfib; i++) {
 		struct fiber *f = &F[i];
-		hmix (h, (uint64_t)f->st | ((uint64_t)f->woken << 8) | ((uint64_t)f->fault << 16) | ((uint64_t)f->blocks << 32));
+		hmix (h, (uint64_t)f->st | ((uint64_t)f->woken << 8) | ((uint64_t)f->fault << 16) | ((uint64_t)f->blocks << 32) | ((uint64_t)f->sleeps << 48) | ((uint64_t)f->blocks_armed << 24));
 		if (f->st == ST_DONE) continue;
 		hmix (h, (uint64_t)f->futex_addr); hmix (h, (uint64_t)f->dl); hmix (h, (uint64_t)f->await);
 		hmix (h, (uint64_t)f->tls_waiter); hmix (h, (uint64_t)f->dest);
